@@ -157,6 +157,8 @@ func execOp(op Op, e *env) (out Outcome) {
 		if r := recover(); r != nil {
 			if _, ok := r.(simrt.StepCapExceeded); ok {
 				out = Outcome{Kind: "stepcap", Invoke: out.Invoke}
+			} else if _, ok := r.(simrt.CapacityExceeded); ok {
+				out = Outcome{Kind: "aborted", Invoke: out.Invoke}
 			} else {
 				out = Outcome{Kind: "panic", ErrMsg: fmt.Sprint(r), Invoke: out.Invoke}
 			}
@@ -590,6 +592,10 @@ func runSched(w *Workload) *RunReport {
 
 	// 4. oracles
 	progressPhase(3)
+	if rep.Out.Aborted {
+		// the library started more goroutines than the simulator holds: nothing is concluded
+		return rep
+	}
 	for ci := range rep.Outcomes {
 		recheck(rep.Outcomes[ci], len(rep.Outcomes[ci]), "after all clients finished")
 	}
